@@ -107,3 +107,10 @@ theorem not_PropC22 : ¬ PropC22 := by
 example : quiescent (runSched ⟨sB, [{ op := .create 1 "n1" }, { op := .removePod "p1" }]⟩ [0, 0, 1, 1, 0, 0, 1, 0, 0, 1, 1]) = true := by decide
 
 end Eru.Props.C22
+
+namespace Eru.Props.C22
+open Eru.Cluster2.RI
+/-! non-vacuity of `refinv_serial`: the operations do finish when run alone (no lock is held) -/
+example : (runAlone 12 sB { op := .create 1 "n1" }).2.done = true ∧ (runAlone 12 sB { op := .removeNode "n1" }).2.done = true ∧
+    (runAlone 12 sA { op := .addNode "n1" "p1", fault := some .p2 }).2.done = true := by decide
+end Eru.Props.C22
